@@ -321,6 +321,9 @@ func (c *Chunked) Read(p []byte) (int, error) {
 			return 0, nil
 		}
 		n = 1 + c.Rng.Intn(len(p))
+	case "dataeof":
+		// random splits; the read that delivers the last byte reports io.EOF together with the data (io.Reader allows it)
+		n = 1 + c.Rng.Intn(len(p))
 	}
 	if n > len(p) {
 		n = len(p)
@@ -330,5 +333,8 @@ func (c *Chunked) Read(p []byte) (int, error) {
 	}
 	copy(p, c.Data[c.Pos:c.Pos+n])
 	c.Pos += n
+	if c.Policy == "dataeof" && c.Pos >= len(c.Data) {
+		return n, io.EOF
+	}
 	return n, nil
 }
